@@ -47,6 +47,7 @@ type vSent struct {
 	header            http.Header
 	body              []byte
 	ctxErr            error
+	declaredLen       int64
 }
 
 var (
@@ -57,7 +58,7 @@ var (
 )
 
 func vSend(r *http.Request, client *http.Client) (*http.Response, error) {
-	s := vSent{method: r.Method, url: r.RequestURI, host: r.Host, header: r.Header}
+	s := vSent{method: r.Method, url: r.RequestURI, host: r.Host, header: r.Header, declaredLen: r.ContentLength}
 	if r.Body != nil {
 		s.body, _ = io.ReadAll(r.Body)
 	}
@@ -229,7 +230,14 @@ func vForward(requestSide bool) {
 		vGzipLen = verifChoose("gzipOutputLength", verifBound("maxBody")+2)
 	}
 	reqBody := verifBytes("req.body", verifChoose("req.bodyLength", 3))
-	ctx, req, std := vClientRequest(reqBody, false)
+	// stream mode: the payload is a reader; the length the client declared need not be the
+	// length of that stream (a RequestAdaptor in front may have replaced the body)
+	stream := requestSide && verifBool("req.stream")
+	ctx, req, std := vClientRequest(reqBody, stream)
+	if stream {
+		std.ContentLength = verifInt("req.clientDeclaredLength", -1, 3)
+		verifCover("request-stream-mode")
+	}
 	// hop-by-hop headers: a subset of the fixed ones, plus one named by Connection
 	// one of the fixed hop-by-hop headers, or all of them
 	if k := verifChoose("req.hopHeader", len(vHop)); k == 0 {
@@ -285,6 +293,9 @@ func vForward(requestSide bool) {
 	}
 	verifAssert(s.method == std.Method && s.url == wantURL, "backend-gets-method-path-query")
 	verifAssert(vBytesEq(s.body, reqBody), "backend-gets-body")
+	// framing of the forwarded request: a declared length (0 / -1 = not declared, the transport
+	// then sends chunked) must be the number of body bytes actually sent
+	verifAssert(s.declaredLen <= 0 || s.declaredLen == int64(len(reqBody)), "forwarded-request-length-matches-body")
 	if !svr.addrIsHostName || svr.KeepHost {
 		verifAssert(s.host == "client.host", "client-host-for-ip-or-keephost-servers")
 	} else {
@@ -434,5 +445,37 @@ func verifC10_Pool() {
 			verifAssert(result == resultTimeout && resp.StatusCode() == 408, "timeout-yields-408-result-timeout")
 			verifCover("timeout")
 		}
+	}
+}
+
+// verifC03_ServerAddr: which Host a server gets depends on whether its URL is IP-addressed.
+// The REAL Server.checkAddrPattern (url.Parse executed by the engine, net.ParseIP native) over
+// every combination of scheme x host shape x port; the expected answer comes from the table.
+func verifC03_ServerAddr() {
+	type hostShape struct {
+		text string
+		isIP bool
+		v6   bool
+	}
+	hosts := []hostShape{
+		{"10.0.0.1", true, false}, {"255.255.255.255", true, false}, {"::1", true, true}, {"2001:db8::1", true, true},
+		{"fe80::1:2:3", true, true}, {"example.com", false, false}, {"localhost", false, false},
+		{"10.0.0.256", false, false}, {"a1.2.3.4", false, false}, {"1.2.3", false, false},
+	}
+	h := hosts[verifChoose("server.hostShape", len(hosts))]
+	scheme := []string{"http", "https"}[verifChoose("server.scheme", 2)]
+	port := []string{"", ":80", ":8080"}[verifChoose("server.port", 3)]
+	text := h.text
+	if h.v6 {
+		text = "[" + text + "]"
+	}
+	svr := &Server{URL: scheme + "://" + text + port}
+	svr.checkAddrPattern()
+	verifAssert(svr.addrIsHostName == !h.isIP, "server-is-ip-addressed-iff-its-host-is-an-ip-literal")
+	if h.v6 && port == "" {
+		verifCover("bracketed-ipv6-without-port")
+	}
+	if !h.isIP {
+		verifCover("host-name")
 	}
 }
